@@ -1,16 +1,38 @@
-"""C10 - handlers fail only with protocol exceptions and only when the caller is at fault (draft)."""
+"""C10 - handlers fail only with protocol exceptions and only when the caller is at fault.
+
+model      : spec/Solo.tla on both sides with the widest input universe (all 8 PDU kinds, right and wrong directions, ids,
+             sequence numbers and modes, odd offsets / sizes / checksums, EOF (cancel), put / cancel requests, clock jumps,
+             rejected writes): the C10 monitor (only protocol exceptions; 'unretrieved' only with PDUs queued; an admission
+             refusal leaves state, step, progress, queue and filestore unchanged) is an invariant of every input sequence
+spec->code : sequences replayed into lone real handlers
+code->spec : conformance (the transducers predict the exception class of every call) + monitor C10 on the observed values;
+             seeded random adversarial runs on both sides incl. deliberately unretrieved PDUs and non-default fault handlers;
+             fault schedules of the closed model
+"""
 from flow import Run, replay_file
 
 PROP = "C10"
+DST = ["md", "mdonly", "fd", "fdodd", "wrej", "eof", "eofodd", "eofcancel", "ack", "poll", "tick", "cancel", "alien"]
+SRC = ["put", "putodd", "poll", "tick", "nak", "nakodd", "ack", "fin", "cancel", "cancelwrong", "alien"]
 
 
 def run(tier: str, keep: bool = False) -> int:
     r = Run(PROP, tier)
-    n = 400 if r.quick else 6000
+    q = r.quick
+    fam1 = 'Numbered({ [SoloBase(2, 1, 2) EXCEPT !.mode = m, !.closure = c, !.immNak = i] : m \\in {"ACK", "UNACK"}, c \\in BOOLEAN, i \\in BOOLEAN })'
+    fam2 = 'Numbered({ [SoloBase(2, 1, 2) EXCEPT !.mode = m] : m \\in {"ACK", "UNACK"} })'
+    r.solo("dstwide", "D", fam2, DST, 3 if q else 4, ["C10"], limit=4000 if q else 150000)
+    r.solo("dstdeep", "D", fam1, ["fd", "fdodd", "eof", "eofcancel", "ack", "poll", "tick", "cancel", "alien"], 5 if q else 6, ["C10"],
+           pre=[["md"], ["fd", "eof"]], limit=5000 if q else 150000)
+    r.solo("srcwide", "S", fam2, SRC, 3 if q else 4, ["C10"], pre=[["put", "putodd"]], limit=4000 if q else 150000)
+    r.solo("srcdeep", "S", fam1, ["poll", "nak", "nakodd", "ack", "fin", "cancel", "tick", "alien"], 5 if q else 6, ["C10"],
+           pre=[["put"], ["poll"], ["poll"]], limit=5000 if q else 150000)
+    n = 400 if q else 8000
     r.driver("src_random", n, ["C10"])
     r.driver("dst_random", n, ["C10"])
     r.driver("src_random", n // 2, ["C10"], default_fh=False)
     r.driver("dst_random", n // 2, ["C10"], default_fh=False)
+    r.schedules("pairK2", "FamAck(3, {1, 3})", ["C10"], K=2, faults=["drop", "dup", "swap", "flip", "wrej"], limit=500 if q else None)
     r.judge()
     return r.finish(keep=keep)
 
